@@ -17,11 +17,29 @@ open SE SE.Bnd SE.Proofs.Lemmas.Bounds
 /-- `compute_bounds` is read off the converted shape: the model of `compute_bounds` in
     Geometry.lean is the envelope of the model of `geometry_to_shapely` -/
 theorem C05_bounds_via_shape (g : Geom) : (toShape g).bounds = g.bounds := by
-  cases g <;> simp only [toShape, Shape.bounds, Shape.envPts, Geom.bounds, Geom.boundPts, polyOf]
-  · -- time interval: the ring of `box(s, 0, e, MAX)` has the envelope of its two corners
-    simp only [boxRing, ptsBounds, List.foldl, Option.some.injEq, Bounds.mk.injEq]; grind
-  · simp only [boxRing, ptsBounds, List.foldl, Option.some.injEq, Bounds.mk.injEq]; grind
-  · simp [List.map_map, Function.comp_def, polyOf]
+  cases g with
+  | timeInterval s e =>
+    -- the ring of `box(s, 0, e, MAX)` has the envelope of its two corners
+    simp only [toShape, Shape.bounds, Shape.envPts, Geom.bounds, Geom.boundPts, boxRing, ptsBounds,
+      List.foldl, Option.some.injEq, Bounds.mk.injEq]; grind
+  | boundingBox s l e h =>
+    simp only [toShape, Shape.bounds, Shape.envPts, Geom.bounds, Geom.boundPts, boxRing, ptsBounds,
+      List.foldl, Option.some.injEq, Bounds.mk.injEq]; grind
+  | polygon rings =>
+    -- closing the shell adds no new point
+    simp only [toShape, Shape.bounds, Shape.envPts, Geom.bounds, Geom.boundPts, polyOf]
+    exact ptsBounds_congr_mem _ _ (mem_closeRing _)
+  | multiPolygon ps =>
+    simp only [toShape, Shape.bounds, Shape.envPts, Geom.bounds, Geom.boundPts, List.map_map]
+    apply ptsBounds_congr_mem
+    intro p
+    simp only [List.mem_flatten, List.mem_map, Function.comp_apply, polyOf]
+    constructor
+    · rintro ⟨l, ⟨rings, hr, rfl⟩, hp⟩
+      exact ⟨_, ⟨rings, hr, rfl⟩, (mem_closeRing _ p).mp hp⟩
+    · rintro ⟨l, ⟨rings, hr, rfl⟩, hp⟩
+      exact ⟨_, ⟨rings, hr, rfl⟩, (mem_closeRing _ p).mpr hp⟩
+  | _ => rfl
 
 /-- bounds = (min time, min frequency, max time, max frequency) over the vertices of the
     converted shape (for polygons: of the shell, see `C05_bounds_all_coordinates`) -/
@@ -194,46 +212,79 @@ theorem C05_conversion_kind (g : Geom) :
       | .multiPolygon _ => "MultiPolygon" := by
   cases g <;> rfl
 
+private theorem map_closeRing_of_closed (rs : List (List Pt)) (h : rs.all ringClosed = true) :
+    rs.map closeRing = rs := by
+  calc rs.map closeRing = rs.map id :=
+        List.map_congr_left (fun r hr => closeRing_of_closed r (List.all_eq_true.mp h r hr))
+    _ = rs := List.map_id _
+
+private theorem polyOf_back (rings : List (List Pt)) (hne : rings ≠ []) (h : rings.all ringClosed = true) :
+    (polyOf rings).1 :: (polyOf rings).2 = rings := by
+  cases rings with
+  | nil => exact absurd rfl hne
+  | cons a as =>
+    simp only [List.all_cons, Bool.and_eq_true] at h
+    simp only [polyOf, List.headD_cons, List.tail_cons, closeRing_of_closed a h.1,
+      map_closeRing_of_closed as h.2]
+
 /-- the six types whose coordinates are vertices are converted without loss: kind, part
-    structure, ring structure and every coordinate in order can be read back -/
+    structure, ring structure and every coordinate in order can be read back (rings stored
+    closed; shapely closes an open ring, see `C05_conversion_vertex_set`) -/
 theorem C05_conversion_lossless (g : Geom) (hto : timeOnly g = false)
     (hbox : ∀ s l e h, g ≠ .boundingBox s l e h)
     (hrings : ∀ rings, g = .polygon rings → rings ≠ [])
-    (hpolys : ∀ ps, g = .multiPolygon ps → ∀ rings ∈ ps, rings ≠ []) :
-    (toShape g).back = g ∧ (toShape g).kind = g.tag := by
+    (hpolys : ∀ ps, g = .multiPolygon ps → ∀ rings ∈ ps, rings ≠ [])
+    (hcl : RingsClosed g = true) :
+    (toShape g).back = g ∧ (toShape g).kind = g.tag ∧ (toShape g).coords = allPts g := by
   cases g with
   | timeStamp t => simp [timeOnly] at hto
   | timeInterval s e => simp [timeOnly] at hto
   | boundingBox s l e h => exact absurd rfl (hbox s l e h)
-  | point t f => exact ⟨rfl, rfl⟩
-  | lineString pts => exact ⟨rfl, rfl⟩
-  | multiPoint pts => exact ⟨rfl, rfl⟩
-  | multiLineString ls => exact ⟨rfl, rfl⟩
+  | point t f => exact ⟨rfl, rfl, rfl⟩
+  | lineString pts => exact ⟨rfl, rfl, rfl⟩
+  | multiPoint pts => exact ⟨rfl, rfl, rfl⟩
+  | multiLineString ls => exact ⟨rfl, rfl, rfl⟩
   | polygon rings =>
-    refine ⟨?_, rfl⟩
-    cases rings with
-    | nil => exact absurd rfl (hrings [] rfl)
-    | cons a as => rfl
+    have hb := polyOf_back rings (hrings rings rfl) hcl
+    refine ⟨?_, rfl, ?_⟩
+    · simp only [toShape, Shape.back, hb]
+    · simp only [toShape, Shape.coords, allPts]
+      rw [← List.flatten_cons, hb]
   | multiPolygon ps =>
-    refine ⟨?_, rfl⟩
-    simp only [toShape, Shape.back, List.map_map, Geom.multiPolygon.injEq]
-    have : ∀ rings ∈ ps, ((fun p : List Pt × List (List Pt) => p.1 :: p.2) ∘ polyOf) rings = rings := by
+    have hb : ∀ rings ∈ ps, (polyOf rings).1 :: (polyOf rings).2 = rings := fun rings hr =>
+      polyOf_back rings (hpolys ps rfl rings hr) (List.all_eq_true.mp hcl rings hr)
+    refine ⟨?_, rfl, ?_⟩
+    · simp only [toShape, Shape.back, List.map_map, Geom.multiPolygon.injEq]
+      calc ps.map ((fun p : List Pt × List (List Pt) => p.1 :: p.2) ∘ polyOf)
+          = ps.map id := List.map_congr_left (by intro r hr; simpa using hb r hr)
+        _ = ps := List.map_id _
+    · simp only [toShape, Shape.coords, allPts, List.map_map]
+      congr 1
+      apply List.map_congr_left
       intro rings hr
-      have := hpolys ps rfl rings hr
-      cases rings with
-      | nil => exact absurd rfl this
-      | cons a as => rfl
-    calc ps.map ((fun p : List Pt × List (List Pt) => p.1 :: p.2) ∘ polyOf)
-        = ps.map id := List.map_congr_left (by intro r hr; simpa using this r hr)
-      _ = ps := List.map_id _
+      simp only [Function.comp_apply]
+      rw [← List.flatten_cons, hb rings hr]
 
-/-- every vertex of the converted shape is a stored coordinate and vice versa, in the same
-    order, for the six coordinate types -/
-theorem C05_conversion_coordinates (g : Geom) (hto : timeOnly g = false)
-    (hbox : ∀ s l e h, g ≠ .boundingBox s l e h)
-    (hrings : ∀ rings, g = .polygon rings → rings ≠ [])
-    (hpolys : ∀ ps, g = .multiPolygon ps → ∀ rings ∈ ps, rings ≠ []) :
-    (toShape g).coords = allPts g := by
+/-- whatever the rings look like, the converted shape has exactly the stored coordinates as
+    its vertices (closing a ring repeats a vertex, it adds no new one) -/
+theorem C05_conversion_vertex_set (g : Geom) (hto : timeOnly g = false)
+    (hbox : ∀ s l e h, g ≠ .boundingBox s l e h) (p : Pt) :
+    p ∈ (toShape g).coords ↔ p ∈ allPts g := by
+  have hpoly : ∀ rings : List (List Pt),
+      p ∈ (polyOf rings).1 ++ (polyOf rings).2.flatten ↔ p ∈ rings.flatten := by
+    intro rings
+    cases rings with
+    | nil => simp [polyOf, closeRing]
+    | cons a as =>
+      simp only [polyOf, List.headD_cons, List.tail_cons, List.flatten_cons, List.mem_append,
+        mem_closeRing, List.mem_flatten, List.mem_map]
+      constructor
+      · rintro (h | ⟨l, ⟨r, hr, rfl⟩, hp⟩)
+        · exact Or.inl h
+        · exact Or.inr ⟨r, hr, (mem_closeRing r p).mp hp⟩
+      · rintro (h | ⟨r, hr, hp⟩)
+        · exact Or.inl h
+        · exact Or.inr ⟨_, ⟨r, hr, rfl⟩, (mem_closeRing r p).mpr hp⟩
   cases g with
   | timeStamp t => simp [timeOnly] at hto
   | timeInterval s e => simp [timeOnly] at hto
@@ -242,19 +293,15 @@ theorem C05_conversion_coordinates (g : Geom) (hto : timeOnly g = false)
   | lineString pts => rfl
   | multiPoint pts => rfl
   | multiLineString ls => rfl
-  | polygon rings =>
-    cases rings with
-    | nil => exact absurd rfl (hrings [] rfl)
-    | cons a as => simp [toShape, Shape.coords, allPts, polyOf]
+  | polygon rings => simpa [toShape, Shape.coords, allPts] using hpoly rings
   | multiPolygon ps =>
-    simp only [toShape, Shape.coords, allPts, List.map_map]
-    congr 1
-    apply List.map_congr_left
-    intro rings hr
-    have := hpolys ps rfl rings hr
-    cases rings with
-    | nil => exact absurd rfl this
-    | cons a as => simp [polyOf]
+    simp only [toShape, Shape.coords, allPts, List.map_map, List.mem_flatten, List.mem_map,
+      Function.comp_apply]
+    constructor
+    · rintro ⟨l, ⟨rings, hr, rfl⟩, hp⟩
+      exact ⟨_, ⟨rings, hr, rfl⟩, (hpoly rings).mp hp⟩
+    · rintro ⟨l, ⟨rings, hr, rfl⟩, hp⟩
+      exact ⟨_, ⟨rings, hr, rfl⟩, (hpoly rings).mpr hp⟩
 
 /-- boxes and intervals become the rectangle polygon whose vertices are exactly the four
     corners (intervals: over the full band), time stamps the vertical segment over the band -/
@@ -464,5 +511,14 @@ example : (pointAt (fun _ => (0, 0)) "left-top" ⟨1, 2, 3, 4⟩).toOption = non
 -- the shell-only reading of polygon bounds is not vacuous: a hole outside the shell is ignored
 example : (Geom.polygon [[(1, 2), (5, 2), (3, 7), (1, 2)], [(8, 8), (9, 8), (9, 9), (8, 8)]]).bounds
     = some ⟨1, 2, 5, 7⟩ := by decide +kernel
+
+-- ring closure as shapely does it: open ring closed, closed three-vertex ring padded, closed ring kept
+example : toShape (.polygon [[(1, 2), (2, 2), (3, 5)]]) = .polygon [(1, 2), (2, 2), (3, 5), (1, 2)] [] := by
+  decide +kernel
+example : toShape (.polygon [[(1, 2), (2, 2), (1, 2)]]) = .polygon [(1, 2), (2, 2), (1, 2), (1, 2)] [] := by
+  decide +kernel
+example : RingsClosed (.polygon [[(1, 2), (5, 2), (3, 7), (1, 2)]]) = true := by decide +kernel
+example : boundsHolds (.timeInterval 1 3) ⟨1, 0, 3, MAXF⟩ = true := by decide +kernel
+example : boundsHolds (.timeInterval 1 3) ⟨1, 0, 3, 4⟩ = false := by decide +kernel
 
 end SE.Proofs.C05
